@@ -21,7 +21,7 @@ BOUNDED_ONLY = ('No function of this property is under a discharged contract yet
 STANDIN = ' The bounded stand-in (differential run of the real code against an independent executable reference, stated bound in the evidence) additionally runs on every check as a cross-check and decides the clauses listed as not under contract.'
 
 TEXTS = {
- 'C01': T('other', PV + '; one ASSUMED precondition (finish() at most once per matcher); bounded stand-in as a cross-check',
+ 'C01': T('other', PV + '; bounded stand-in as a cross-check',
           'Proved for all inputs and heaps satisfying the representation invariant of section types: the slot search '
           'getsectioninfo (first child in schema order that reacts to the header; fixed name claims by name then type, */+ slot by '
           'type or registered implementer; name rule); key routing BaseMatcher.addValue (key-type normalisation, declared key or '
@@ -34,8 +34,10 @@ TEXTS = {
           'unfinished matchers hold collected values only - matcher invariant MI-unconverted-until-finished); ConfigLoader.startSection (unknown or abstract type refused), endSection (finish then addSection '
           'under the header type and name), loadResource (new matcher per load, result built only after finish()). Matcher '
           'invariants (slot kinds per child kind) are proved preserved by every one of these functions.',
-          'NOT proved: that finish() is called at most once per matcher (assumed precondition `not self.finished`, a ghost flag; it is '
-          'the nesting discipline of the parser) - listed under assumed_requires in the evidence. Assumed: datatype '
+          'That finish() is called at most once per matcher (`not self.finished`, a ghost flag) is proved through the parser: stack '
+          'invariants of ZConfigParser (containers on the stack are open and pairwise different), start_section / end_section / parse. '
+          'Not mechanised: the correspondence between the interface contract ParserContext.endSection and ConfigLoader.endSection '
+          '(parameter names differ). Assumed: datatype '
           'and key-type callables are pure functions that return or raise ValueError; the representation invariant of section types '
           '(children well-formed, attributes distinct, key children have a datatype and unconverted defaults) holds for schemas produced by the schema loader (proved for the info.py constructors and the element handlers of schema.py, C10).' + STANDIN),
  'C02': T('other', PV + ' for defaults / attributes / conversion / section value; bounded stand-in as a cross-check',
@@ -49,7 +51,7 @@ TEXTS = {
           'value or None, a multikey its converted values in file order, a wildcard key / multikey the mapping with the same keys in the '
           'same order to converted value(s) (schema defaults only when the text gave no key at all), a section slot the section value '
           'passed through the datatype of the section\'s own type, a multisection those in file order; the attribute names are unchanged.',
-          'Assumed precondition: finish() at most once per matcher (see C01). The bounded stand-in (~110 000 accepted texts per quick '
+          'The bounded stand-in (~110 000 accepted texts per quick '
           'run against an independent reference tree) cross-checks the whole tree. '
           'Attribute-name derivation (schema.get_name_info) is not under contract.' + STANDIN),
  'C03': T('proof', PV + ' + leftmost-first automaton equivalence for the two line regexes (all string lengths)',
@@ -112,16 +114,24 @@ TEXTS = {
           'override values are fed with (line, column, source) positions.',
           'Conversion errors raised inside constuct come from ValueInfo.convert (position of the value, proved) or from a section '
           'datatype ((-1, -1, None), as the code says); the bounded stand-in injects 46 000 single faults per quick run.' + STANDIN),
- 'C09': T('other', PV + ' + automaton language equivalence for the regex datatypes + binding obligations on the live registry; bounded stand-in for the datatypes not under contract',
+ 'C09': T('other', PV + ' + automaton language equivalence for the regex datatypes + binding obligations on the live registry; bounded stand-in as a cross-check',
           'Regex datatypes (basic-key, identifier, dotted-name, dotted-suffix, ipaddr-or-hostname): the live pattern under '
           '"prefix match then compare with the whole string" accepts exactly the specified language and loses no string of its plain '
           'language - for strings of every length. Function contracts proved for all inputs: RegularExpressionConversion.__call__, '
           'BasicKeyConversion.__call__ (lower-cased), asBoolean (exactly the six words, any case), integer, '
           'RangeCheckedConversion.__call__ (in range or ValueError), SuffixMultiplier.__call__ (loop invariant over the suffix '
-          'table), IpaddrOrHostname.__call__. Binding obligations tie these to the stock registry (port range 0..65535, suffix '
-          'tables, default hosts, classes).',
-          'inet-address, socket-address, timedelta, float, string-list are NOT under contract: bounded stand-in only (17 M strings '
-          'per quick run). Assumed: int()/float() grammar is CPython\'s; socket.inet_pton defines valid IPv6.' + STANDIN),
+          'table), IpaddrOrHostname.__call__, InetAddress.__call__ and SocketAddress.__init__ (host / port split with the IPv6 '
+          'bracket rule, lower-cased host, default host, address family), null_conversion, string_list (exactly str.split), '
+          'float_conversion, existing_directory / existing_path / existing_file / existing_dirpath (the expanded path, or '
+          'ValueError, as the file system says), MemoizedConversion.__init__ / __call__ (same result as the wrapped conversion, '
+          'failures not remembered; invariant: the memo holds only results of the conversion), timedelta (ValueError for the first '
+          'word with a malformed number, TypeError for the first word with an unknown unit letter, ValueError for an interval out '
+          'of range, else the interval of the LAST amount given per unit: loop invariant over the words with two recursive folds). '
+          'Binding obligations tie these to the stock registry (port range 0..65535, suffix tables, default hosts, classes).',
+          'NOT under contract: check_locale (locale module) and the Registry lookups; bounded stand-in (17 M strings per quick run) '
+          'as a cross-check of all stock datatypes. Assumed: int() / float() grammar is CPython\'s; str.split; os.path.expanduser / '
+          'isdir / exists / dirname describe the file system; datetime.timedelta builds the interval or raises OverflowError; '
+          'socket.inet_pton defines valid IPv6.' + STANDIN),
  'C10': T('other', PV + ' for the rules enforced by the info.py constructors and by the element handlers of schema.py; SAX dispatch and XML parsing assumed; bounded stand-in for the document-level statement',
           'Proved (raised as SchemaError when the schema is built, for all inputs): occurrence bounds consistent (BaseInfo.__init__); '
           'unique key names and attribute names per container, inherited ones included (SectionType._add_child / addkey / addsection with '
@@ -185,7 +195,7 @@ TEXTS = {
           'define names are lower-cased before use, <t/> performs exactly open + close. The specification-level lemmas (rewrites '
           'commute with Events) are not mechanised; the relational stand-in decides the property (79 000 rewritten texts per quick run).',
           '' + STANDIN),
- 'C16': T('other', PV + ' for CompositeHandler and the handler-list plumbing; the per-item entries appended by constuct are decided by the bounded stand-in',
+ 'C16': T('other', PV + ' for CompositeHandler, the handler-list plumbing and the number of entries; names / values of the per-item entries are decided by the bounded stand-in',
           'Proved: CompositeHandler.__call__ (three loops with invariants): names normalised with the registry\'s basic-key '
           'conversion (norm_map fold), ConfigurationError before any call iff two names normalise to the same key or some entry\'s '
           'name is unmapped, otherwise every entry\'s callable is invoked exactly once, in entry order, with the entry\'s value, '
@@ -194,8 +204,10 @@ TEXTS = {
           'SchemaMatcher.finish appends the schema-level entry last with the converted top-level value; loadResource builds the '
           'composite handler over the handler list of this load. Binding obligation: Registry().get("basic-key") is the stock '
           'basic-key conversion.',
-          'constuct is under contract for the conversion, but its contract does not yet say WHAT it appends to the handler list '
-          '(schema order, value identical to the tree\'s): bounded stand-in (480 000 handler placements / maps per quick run).' + STANDIN),
+          'constuct / finish / SchemaMatcher.finish are proved to append exactly one entry per handler-bearing child of the type '
+          '(handler_count fold; the earlier entries stay a prefix) plus the schema-level one; WHICH name and value each of those '
+          'entries carries (schema order, value identical to the tree\'s) is decided by the bounded stand-in (480 000 handler '
+          'placements / maps per quick run).' + STANDIN),
  'C17': T('other', PV + ' for the loader side; the serialiser Section.__str__ is not under contract: bounded stand-in decides the round trip',
           'Proved: the schema-less context records what the parser delivers - addValue appends the value to the list of its key in file '
           'order and changes nothing else, startSection creates an empty section of the given (lower-cased) type and name and appends it '
